@@ -478,7 +478,27 @@ func runSchedule(env *Env, clients [][]Op, trees []map[int]*treeHandle, dec deci
 	var m [evSize]byte
 	unblockTried := -1
 	watchdog := 0
+	allBlockedPolls := 0
 	for alive > 0 {
+		// A worker that blocked inside a synchronisation primitive of the code under test (one
+		// the simulator has no seam for) is woken by the Go runtime, not by the scheduler, as
+		// soon as whoever ran since released the primitive. Such a worker is running again:
+		// wait for its next event before releasing anybody else, so that still at most one
+		// worker runs between two scheduling points.
+		nReal := 0
+		for i := 0; i < n; i++ {
+			if state[i] == wsRealBlocked {
+				nReal++
+			}
+		}
+		if nReal > 0 {
+			sts := goroutineStates()
+			for i := 0; i < n; i++ {
+				if state[i] == wsRealBlocked && !isSyncBlockedState(sts[s.workers[i].goid]) {
+					state[i] = wsRunning
+				}
+			}
+		}
 		running := 0
 		for i := 0; i < n; i++ {
 			if state[i] == wsRunning {
@@ -514,6 +534,11 @@ func runSchedule(env *Env, clients [][]Op, trees []map[int]*treeHandle, dec deci
 						who = append(who, fmt.Sprintf("worker %d (%s at %s)", i, []string{"parked", "running", "waiting for a held Once", "blocked in a sync primitive", "done"}[state[i]], siteName(lastSite[i])))
 					}
 				}
+				if nReal > 0 {
+					// workers blocked inside a synchronisation primitive remain: whether that is a
+					// deadlock is decided below, with positive evidence that persists
+					goto wait
+				}
 				out.deadlock = "no worker can make progress: " + strings.Join(who, "; ")
 				break
 			}
@@ -539,40 +564,55 @@ func runSchedule(env *Env, clients [][]Op, trees []map[int]*treeHandle, dec deci
 			state[g] = wsRunning
 			rawWrite(s.workers[g].wake.w, []byte{1})
 		}
+	wait:
 		if !waitReadable(s.central.r, 100) {
 			// nobody reported within the grace period: is a released worker parked inside a
 			// synchronisation primitive (one the simulator has no seam for)?
 			sts := goroutineStates()
-			progress := false
 			for i := 0; i < n; i++ {
 				if state[i] == wsRunning && isSyncBlockedState(sts[s.workers[i].goid]) {
 					state[i] = wsRealBlocked
 					out.realBlocked++
-					progress = true
 				}
 			}
-			if !progress {
+			someoneRunning, someoneSchedulable := false, false
+			for i := 0; i < n; i++ {
+				switch state[i] {
+				case wsRunning:
+					someoneRunning = true
+				case wsParked, wsOnceBlocked:
+					someoneSchedulable = true
+				case wsRealBlocked:
+					if !isSyncBlockedState(sts[s.workers[i].goid]) {
+						someoneRunning = true // woken by the runtime; picked up at the top of the loop
+					}
+				}
+			}
+			switch {
+			case someoneRunning:
 				watchdog++
 				if watchdog > 600 { // 60 s of a worker that is running but silent
 					out.trouble = "watchdog: a released worker neither yielded nor finished within 60 s"
-					break
 				}
-			} else {
-				// real-blocked with nobody else able to run is a deadlock
-				any := false
-				for i := 0; i < n; i++ {
-					if state[i] == wsParked || state[i] == wsRunning || state[i] == wsOnceBlocked {
-						any = true
-					}
-				}
-				if !any {
+			case someoneSchedulable:
+				// the top of the loop releases one of them
+			default:
+				// every unfinished worker is parked by the Go runtime inside a synchronisation
+				// primitive and nobody is left who could release it. Must persist: a worker that
+				// waits for a helper goroutine of the code under test is blocked only until that
+				// goroutine gets to run.
+				allBlockedPolls++
+				if allBlockedPolls >= 8 {
 					out.deadlock = "all unfinished workers are blocked inside synchronisation primitives"
-					break
 				}
+			}
+			if out.trouble != "" || out.deadlock != "" {
+				break
 			}
 			continue
 		}
 		watchdog = 0
+		allBlockedPolls = 0
 		rawRead(s.central.r, m[:])
 		g := int(m[0])
 		if g >= n || (state[g] != wsRunning && state[g] != wsRealBlocked) {
